@@ -193,6 +193,14 @@ class Session:
     def apply_contract(self, interp, c, fn, args, kwargs, node, star):
         local = Args(interp.bind_args(fn, args, kwargs, node, star))
         p = interp.p
+        if hasattr(c, "call_effect"):
+            # heap-modifying callee: precondition and effect are evaluated on the current state
+            short = fn.qualname.split(".")[-1]
+            for cname, g in c.call_requires(interp, local).items():
+                p.oblige(interp.oid(node, f"requires:{short}:{cname}"), "call_requires", g, interp.where(node),
+                         f"precondition clause {cname} of {fn.qualname} holds at the call")
+                p.assume(g)
+            return c.call_effect(interp, local, node)
         req = c.requires(local)
         p.oblige(interp.oid(node, "requires:" + fn.qualname.split(".")[-1]), "call_requires", req, interp.where(node),
                  f"precondition of {fn.qualname} holds at the call")
@@ -227,6 +235,17 @@ class Session:
             return f(c, index, view, args)
 
         return inv
+
+    def loop_iter_post(self, frame, node):
+        c = self.contracts.get(frame.qualname)
+        if c is None:
+            return None
+        k, o = frame.node_ord.get(id(node), (None, None))
+        f = getattr(c, "iter_post", {}).get(o)
+        if f is None:
+            return None
+        args = self._cur_args
+        return lambda view, f=f, c=c, args=args: f(c, view, args)
 
     def havoc_loop(self, interp, st, env, inv):
         names = set()
@@ -272,6 +291,7 @@ class Session:
         if not isinstance(fn, Func):
             raise Unsupported(f"{contract.target} is not a function")
         self.top_target = contract.target
+        self.cur_contract = contract
         sink = []
         info = {"paths": 0, "feasible_returns": 0, "feasible_raises": {}, "variants": len(contract.variants),
                 "requires_sat": None}
@@ -297,6 +317,8 @@ class Session:
                 try:
                     for sa in self.side_assumptions:
                         p.assume(sa)
+                    if hasattr(contract, "setup"):
+                        contract.setup(p, A, mk)
                     p.assume(contract.requires(A))
                     if not preset:
                         # vacuity guard: the precondition (with typing side conditions) is satisfiable
@@ -311,8 +333,13 @@ class Session:
                     if outcome[0] == "return":
                         info["feasible_returns"] += 1
                         res = outcome[1]
-                        p.oblige(f"{short}{vtag}:post", "post", contract.ensures(A, res), where,
-                                 "postcondition on normal return")
+                        if hasattr(contract, "split_post"):
+                            for cname, g in contract.split_post(A, res).items():
+                                p.oblige(f"{short}{vtag}:post:{cname}", "post", g, where,
+                                         f"postcondition clause {cname} on normal return")
+                        else:
+                            p.oblige(f"{short}{vtag}:post", "post", contract.ensures(A, res), where,
+                                     "postcondition on normal return")
                         for exc, cond in contract.raises.items():
                             p.oblige(f"{short}{vtag}:must_raise:{exc}", "must_raise", S.Not(cond(A)), where,
                                      f"normal return only when the condition for {exc} does not hold")
